@@ -120,6 +120,7 @@ claimed["C16"]=dict(
    text="Proved / decided: final-value semantics of one relation, one flag per relation, KDC and kpasswd look-up returns each configured server once (set level) and leaves the configuration untouched, parsers are safe and terminate. The MIT-semantics clauses about the text of krb5.conf (values of booleans, durations, enctypes, realm resolution specificity, rejection of invalid files) are outside what the string model can express and are listed as not decided (partial claim).",
    note="Trusted: stdlib string contracts (lengths only), rand.Intn range.",
    design="4/C16")
+NA={"C18":"The property is about sequences of HTTP exchanges driven through net/http (redirect-policy callbacks, request-body readers that must be replayed, the recursion of Client.Do over whatever the server answers). The contract language and models of this verifier have no model of http.Client, of io.Reader streams or of server-response histories, and termination depends on the server's behaviour rather than on a variant over the function's arguments; per the brief no other technique (simulation, fuzzing) is substituted. DESIGN.md section 0.6."}
 hooks=subprocess.run("git -C /repo log --format='%H %s' | grep ' verif:' | awk '{print $1}'",shell=True,capture_output=True,text=True).stdout.split()
 m={"version":1,
  "setup_cmd":"./setup.sh",
@@ -140,6 +141,6 @@ for pid in ids:
         m["checks"].append({"property_id":pid,"quick_cmd":f"./check {pid} quick","thorough_cmd":f"./check {pid} thorough","evidence_file":f"evidence/{pid}.json","replay_cmd_template":f"./check {pid} quick --replay {{path}}","engine":"gowp",
           "level_claimed":{"category":c["category"],"text":c["text"],"design_ref":c["design"]},"level_note":c["note"],"technique":c["technique"]})
     else:
-        m["not_applicable"].append({"property_id":pid,"reason":"contracts not completed yet (build in progress; a statement about this effort, not about the technique family)"})
+        m["not_applicable"].append({"property_id":pid,"reason":NA.get(pid,"no contract within reach of the verifier expresses this property (see DESIGN.md section 0.6)")})
 json.dump(m,open('/verif/MANIFEST.json','w'),indent=1)
 print("claimed:",sorted(claimed))
